@@ -141,6 +141,24 @@ Fixpoint get_pay (n : nat) (d : Z) (lvl : nat) (pt : list Z) (es : ifib) : optio
     end
   end.
 
+(* ---- getPayload( *pt, default=dflt, allocate=False ): a missing element is answered at once
+   with the caller's default (boxed), whatever coordinates remain (fiber.py:838-865: const_used);
+   an existing one is returned / descended into with the same default *)
+Fixpoint get_pay_d (dflt : Z) (pt : list Z) (es : ifib) : option itree :=
+  match pt with
+  | [] => None
+  | c :: pt' =>
+    let i := bisect c (map fst es) in
+    if coord_exists c (map fst es) i then
+      match nth_error es i, pt' with
+      | Some (_, p), [] => Some p
+      | Some (_, INode _ _ es'), _ :: _ => get_pay_d dflt pt' es'
+      | Some (_, ILeaf _), _ :: _ => None     (* "getPayload too many coordinates" *)
+      | None, _ => None
+      end
+    else Some (ILeaf dflt)
+  end.
+
 (* ---- generic: apply a fiber-local update at the fiber addressed by [path]; the update may
    fail (rejection) — then the whole operation leaves the tree as it was *)
 Fixpoint at_path (path : list Z) (f : nat -> ifib -> option ifib) (lvl : nat) (es : ifib)
@@ -303,7 +321,8 @@ Inductive op :=
 | OGetPos (path : list Z) (c : Z) (sp : option nat)            (* fiber.getPosition(c, start_pos) *)
 | OGetPosRef (path : list Z) (c : Z) (sp : option nat)         (* fiber.getPositionRef(c, start_pos) *)
 | OGetSP (path : list Z) (c : Z) (sp : option nat)             (* fiber.getPayload(c, start_pos=sp) *)
-| OGetRefSP (path : list Z) (c : Z) (sp : option nat) (w : wr) (* fiber.getPayloadRef(c, start_pos=sp), then w *).
+| OGetRefSP (path : list Z) (c : Z) (sp : option nat) (w : wr) (* fiber.getPayloadRef(c, start_pos=sp), then w *)
+| OGetD (pt : list Z) (dflt : Z)   (* tensor.getPayload( *pt, default=dflt, allocate=False ) *).
 
 Inductive res := RNone | RPay (t : itree) | RPos (p : option nat).
 
@@ -540,6 +559,10 @@ Definition step (s : st) (o : op) : st * outcome :=
         else (s, BadAddress)
       | None => (s, BadAddress)
       end
+    else (s, BadAddress)
+  | OGetD pt dflt =>
+    if (Nat.leb (length pt) n) && negb (Nat.eqb (length pt) O)
+    then (s, Done (res_of (get_pay_d dflt pt (root_es s))))
     else (s, BadAddress)
   end.
 
